@@ -13,7 +13,9 @@
    The discipline checked (census_ok): a lock-free function writes nothing of all that and
    does not read what locked functions keep mutating; nothing at all writes a
    package-level variable after initialisation; the long-lived objects Codec / Reflector /
-   SchemaCache hold nothing mutable beyond the cache itself.  A memo map added to the
+   SchemaCache hold nothing mutable beyond the cache itself; what locked functions write of
+   the schema objects that lock-free functions read, they write on objects created inside
+   the same critical section (RefSchema.To apart: the publication point).  A memo map added to the
    Reflector (or to any schema type, or at package level) and filled on the encode/decode
    path breaks [lf_writes_nothing]; filled inside Schema, but at package level,
    [vars_only_initialised].
@@ -82,6 +84,40 @@ Definition published_ok (fs : list string) : bool :=
   forallb (fun f => String.prefix "j5schema." f && negb (in_strs f locked_fields)) fs &&
   in_strs "j5schema.RefSchema.To" fs.
 
+(* (4') ... and the objects whose fields locked functions write were created in the same
+   function, by a function that only returns objects it created, or sit in a container the
+   function made and filled: created inside the current critical section, so not yet handed to
+   any lock-free reader.  The one exception is RefSchema.To, the publication point itself
+   (the model's EWr / write_once), written on a fresh placeholder or on the placeholder that
+   newRefPlaceholder returned, by the four functions of the token tables *)
+Definition fresh_class (c : string) : bool := in_strs c ["fresh"; "fresh-call"; "fresh-elem"].
+
+Definition to_writers : list string :=
+  ["j5schema.SchemaCache.schemaLocked"; "j5schema.Package.messageProperties";
+   "j5schema.buildEnumFieldSchema"; "j5schema.buildMessageFieldSchema"].
+
+Definition lk_writes_to_fresh (ws : list write) : bool :=
+  forallb (fun w =>
+    if String.eqb (w_target w) "j5schema.RefSchema.To"
+    then in_strs (w_fn w) to_writers &&
+         (fresh_class (snd w) || String.eqb (snd w) "other:result of newRefPlaceholder")
+    else fresh_class (snd w)) ws.
+
+(* the To writers are the functions of the regenerated token tables *)
+Definition last_component (s : string) : string :=
+  (fix go (fuel : nat) (s : string) : string :=
+     match fuel with
+     | O => s
+     | S f => match String.index 0 "." s with
+              | Some i => go f (String.substring (S i) (String.length s - S i) s)
+              | None => s
+              end
+     end) 4 s.
+
+Definition to_writers_in_tables : bool :=
+  forallb (fun n => match find_fn (List.app ConcGen.cache_methods ConcGen.placeholder_functions) (last_component n) with
+                    | Some _ => true | None => false end) to_writers.
+
 (* (5) the long-lived objects hold nothing mutable but the chain to the cache *)
 Definition holder_fields : list string :=
   ["codec.Codec.refl"; "codec.Codec.resolver"; "j5reflect.Reflector.schemaSet";
@@ -136,16 +172,16 @@ Definition ext_pkg_ok (p : string) : bool :=
   String.prefix "google.golang.org/protobuf/" p ||
   in_strs p ["bytes"; "encoding/base64"; "encoding/json"; "errors"; "fmt"; "math"; "math/bits"; "reflect";
              "sort"; "slices"; "maps"; "strconv"; "strings"; "sync"; "time"; "unicode"; "unicode/utf8"; "unicode/utf16";
-             "regexp"; "net/url"; "io";
+             "regexp"; "net/url"; "io"; "cmp"; "encoding/hex"; "math/big"; "path"; "html";
              "github.com/iancoleman/strcase"; "github.com/shopspring/decimal"; "github.com/google/uuid";
              "google.golang.org/grpc/status"; "google.golang.org/grpc/codes"].
 
-(* package-level variables of mutable kind: the default codecs, an error value, a compiled
-   pattern, read-only tables — all covered by (2); listed so that a new one is looked at *)
+(* package-level variables of mutable kind (error values apart: immutable): the default codecs,
+   a compiled pattern, read-only tables — all covered by (2); listed so that a new one is looked at *)
 Definition var_ok (v : string * string * bool) : bool :=
   match v with
   | (n, _, mut) => negb mut ||
-      in_strs n ["codec.Global"; "j5codec.Global"; "codec.errInvalidUTF8"; "id62.Pattern";
+      in_strs n ["codec.Global"; "j5codec.Global"; "id62.Pattern";
                  "j5schema.floatKinds"; "j5schema.intKinds"; "j5schema.wellKnownStringPatterns"]
   end.
 
@@ -156,6 +192,8 @@ Definition census_ok : bool :=
   locked_fields_written_by_cache ConcStateGen.locked_fns ConcStateGen.state_writes &&
   cache_writers_in_table &&
   published_ok ConcStateGen.lk_written_lf_read &&
+  lk_writes_to_fresh ConcStateGen.lk_field_writes &&
+  to_writers_in_tables &&
   holders_hold_only_the_cache ConcStateGen.shared_fields &&
   forallb shared_type_ok ConcStateGen.shared_types &&
   boundary_ok ConcStateGen.lockfree_roots ConcStateGen.lockfree_fns ConcStateGen.locked_fns ConcStateGen.schema_callers &&
@@ -170,5 +208,8 @@ Definition census_ok : bool :=
 Definition memo_write : write := ("j5reflect.Reflector.NewRoot", "field:j5reflect.Reflector.rootProps", "elem").
 (* the same through a local alias:  m := r.rootProps; m[k] = v *)
 Definition memo_alias_write : write := ("j5reflect.Reflector.NewRoot", "elem-of:map[string]*j5reflect.propSet", "elem").
+(* a locked function that modifies an object it found in the cache (published earlier) *)
+Definition republish_write : write :=
+  ("j5schema.Package.messageProperties", "j5schema.ObjectSchema.Properties", "other:result of refTo").
 (* a package-level cache filled inside Schema (under sc.mu, but shared by all codecs) *)
 Definition pkg_cache_write : write := ("j5schema.SchemaCache.schemaLocked", "var:j5schema.descCache", "elem").
